@@ -71,7 +71,7 @@ func streamFaults(cfg *Config, res *Result) error {
 	}
 	umask := []int{0o022, 0, 0o027}[int(cfg.Seed)%3]
 	syscall.Umask(umask)
-	res.Rule = fmt.Sprintf("seeded random histories (1-4 operations + Rollback, trees as in the hist stream); the fault-free run lists every primitive call; for %s each candidate call (C08: every backup-side call issued while an operation runs, incl. Write/Close on the copy's handle; C09: every call on either filesystem issued during Rollback, incl. Read/Write/Close/Stat on handles) becomes one re-run with that call failing with EIO, up to %d per history, plus sampled double faults; every re-run is compared with the model under the same fault plan (all primitive calls per step as a multiset, results, trees, tracked map) and judged by the property's oracle; non-trivial = the fault fired; distinct by (history, fault plan)", cfg.Prop, perCase)
+	res.Rule = fmt.Sprintf("seeded random histories (1-4 operations + Rollback, trees as in the hist stream); the fault-free run lists every primitive call; for %s each candidate call (C08: every backup-side call issued while an operation runs, incl. Write/Close on the copy's handle; C09: every call on either filesystem issued during Rollback, incl. Read/Write/Close/Stat on handles) becomes one re-run with that call failing with EIO, up to %d per history, plus sampled double faults, plus (oracle only, outside the model) EPERM/ENOSPC faults and write-back failures (Close fails and the written data is lost); every re-run is compared with the model under the same fault plan (all primitive calls per step as a multiset, results, trees, tracked map) and judged by the property's oracle; non-trivial = the fault fired; distinct by (history, fault plan)", cfg.Prop, perCase)
 	b := &Batch{}
 	for _, raw := range corpusCases("hist") {
 		var hc HistCase
